@@ -199,31 +199,60 @@ func drive(args []string) {
 			if ji < 3 {
 				a = append(a, "-samples", "1")
 			}
-			cmd := exec.Command(b.bin(j.build), a...)
-			var stdout, stderr bytes.Buffer
-			cmd.Stdout, cmd.Stderr = &stdout, &stderr
-			done := make(chan error, 1)
-			if err := cmd.Start(); err != nil {
-				errs[ji] = err
-				return
-			}
-			go func() { done <- cmd.Wait() }()
-			select {
-			case err := <-done:
-				if err != nil {
-					errs[ji] = fmt.Errorf("worker %d (%s): %v\n%s", ji, j.build, err, tail(stderr.String(), 2000))
+			deadline := time.Now().Add(bud)
+			var acc *WorkerOut
+			from := uint64(j.from)
+			for {
+				left := time.Until(deadline)
+				if left < 50*time.Millisecond && acc != nil {
+					break
+				}
+				if left < 50*time.Millisecond {
+					left = 50 * time.Millisecond
+				}
+				args := append([]string{}, a...)
+				args[6] = fmt.Sprint(from)
+				args[10] = left.String()
+				cmd := exec.Command(b.bin(j.build), args...)
+				var stdout, stderr bytes.Buffer
+				cmd.Stdout, cmd.Stderr = &stdout, &stderr
+				done := make(chan error, 1)
+				if err := cmd.Start(); err != nil {
+					errs[ji] = err
 					return
 				}
-			case <-time.After(bud + 120*time.Second):
-				cmd.Process.Kill()
-				errs[ji] = fmt.Errorf("worker %d (%s): watchdog expired", ji, j.build)
-				return
+				go func() { done <- cmd.Wait() }()
+				select {
+				case err := <-done:
+					if err != nil {
+						errs[ji] = fmt.Errorf("worker %d (%s): %v\n%s", ji, j.build, err, tail(stderr.String(), 2000))
+						return
+					}
+				case <-time.After(left + 120*time.Second):
+					cmd.Process.Kill()
+					errs[ji] = fmt.Errorf("worker %d (%s): watchdog expired", ji, j.build)
+					return
+				}
+				var wo WorkerOut
+				if err := json.Unmarshal(stdout.Bytes(), &wo); err != nil {
+					errs[ji] = fmt.Errorf("worker %d: bad output: %v", ji, err)
+					return
+				}
+				if acc == nil {
+					acc = &wo
+				} else {
+					mergeWorker(acc, &wo)
+				}
+				if wo.Violation != nil || wo.RestartFrom == 0 {
+					break
+				}
+				acc.Restarts++
+				from = wo.RestartFrom
+				if *maxRuns > 0 && acc.Runs >= *maxRuns {
+					break
+				}
 			}
-			var wo WorkerOut
-			if err := json.Unmarshal(stdout.Bytes(), &wo); err != nil {
-				errs[ji] = fmt.Errorf("worker %d: bad output: %v", ji, err)
-				return
-			}
+			wo := *acc
 			outs[ji] = &wo
 		}(ji, j)
 	}
@@ -395,6 +424,27 @@ func drive(args []string) {
 	if unknown > 0 {
 		os.Exit(1)
 	}
+}
+
+// mergeWorker folds the output of a restarted worker into the accumulated one.
+func mergeWorker(acc, w *WorkerOut) {
+	acc.Runs += w.Runs
+	acc.Incon += w.Incon
+	acc.InconWhy = append(acc.InconWhy, w.InconWhy...)
+	if len(acc.InconWhy) > 5 {
+		acc.InconWhy = acc.InconWhy[:5]
+	}
+	acc.Violation, acc.ReplayFile = w.Violation, w.ReplayFile
+	addStats(acc.Stats, w.Stats)
+	acc.Distinct = append(acc.Distinct, w.Distinct...)
+	for k, v := range w.Policies {
+		acc.Policies[k] += v
+	}
+	acc.Samples = append(acc.Samples, w.Samples...)
+	acc.WallS += w.WallS
+	acc.DetChecks += w.DetChecks
+	acc.LastIdx = w.LastIdx
+	acc.Poisoned = acc.Poisoned || w.Poisoned
 }
 
 func maxIdx(outs []*WorkerOut) uint64 {
